@@ -688,3 +688,65 @@ package pdf
 //@   claims pre/DecodeStream/ pre/(Getter).Get/ pre/resolve
 //@   requires r != nil && stream != nil
 //@   assigns *
+
+// ---- AES-CBC with PKCS#7 padding (C10; ISO 32000-2, 7.6.3.1) ----
+// unpadPKCS7 accepts exactly the buffers whose last byte p satisfies 1 <= p <= 16 and whose
+// last p bytes all equal p, and strips exactly those p bytes.
+//@ spec func padOK(b seq) bool = len(b) >= 16 && len(b) % 16 == 0 && 1 <= b[len(b)-1] && b[len(b)-1] <= 16 && forall i in 0..16 :: i < b[len(b)-1] ==> b[len(b)-1-i] == b[len(b)-1]
+
+//@ func unpadPKCS7 (buf) (out, err)
+//@   tags C10 C08
+//@   pure
+//@   ensures (err == nil) == padOK(buf)
+//@   ensures err == nil ==> refof(out) == refof(buf) && offof(out) == offof(buf) && len(out) == len(buf) - buf[len(buf)-1]
+//@   ensures err != nil ==> err == errCorrupted
+//@   loop 1: invariant 0 <= good && good <= 1 && n == len(buf) && n >= 16 && padByte == buf[n-1]
+//@   loop 1: invariant good == 1 <==> (1 <= padByte && padByte <= 16 && forall j in 0..\idx :: j < padByte ==> buf[n-1-j] == padByte)
+
+// The encrypting stream writer hands the cipher exactly the bytes written to it, followed
+// on Close by 16-(M mod 16) bytes of that value: the plaintext seen by the cipher is the
+// ghost log of w.cbc.
+//@ pred ewOK(w *encryptWriter) = w.w != nil && w.cbc != nil && refof(w.w) != refof(w.cbc) && len(w.buf) == 16 && 0 <= w.pos && w.pos < 16
+
+//@ func (*encryptWriter).Close (w) (err)
+//@   tags C10
+//@   requires ewOK(w)
+//@   assigns w.buf, elems(w.buf), w.cbc.log, w.w.log
+//@   ensures len(w.cbc.log) == old(len(w.cbc.log)) + 16
+//@   ensures forall i in 0..old(len(w.cbc.log)) :: w.cbc.log[i] == old(w.cbc.log[i])
+//@   ensures forall k in 0..old(w.pos) :: w.cbc.log[old(len(w.cbc.log)) + k] == old(w.buf[k])
+//@   ensures forall k in old(w.pos)..16 :: w.cbc.log[old(len(w.cbc.log)) + k] == 16 - old(w.pos)
+//@   loop 1: invariant ewOK(w) && w.pos == old(w.pos) && w.buf == old(w.buf) && kPad == 16 - w.pos && w.pos <= i && i <= 16
+//@   loop 1: invariant forall k in 0..w.pos :: w.buf[k] == old(w.buf[k])
+//@   loop 1: invariant forall k in w.pos..i :: w.buf[k] == kPad
+//@   loop 1: invariant len(w.cbc.log) == old(len(w.cbc.log)) && forall k in 0..len(w.cbc.log) :: w.cbc.log[k] == old(w.cbc.log[k])
+
+//@ func (*encryptWriter).Write (w, p) (n, err)
+//@   tags C10
+//@   requires ewOK(w)
+//@   assigns w.pos, elems(w.buf), w.cbc.log, w.w.log
+//@   ensures err == nil ==> ewOK(w) && n == old(len(p))
+//@   ensures 0 <= n && n <= old(len(p))
+//@   ensures err == nil ==> len(w.cbc.log) + w.pos == old(len(w.cbc.log)) + old(w.pos) + old(len(p))
+//@   ensures len(w.cbc.log) % 16 == old(len(w.cbc.log)) % 16
+//@   loop 1: invariant ewOK(w) && w.buf == old(w.buf) && w.cbc == old(w.cbc) && w.w == old(w.w) && 0 <= n && n + len(p) == old(len(p))
+//@   loop 1: invariant len(w.cbc.log) + w.pos == old(len(w.cbc.log)) + old(w.pos) + n && len(w.cbc.log) % 16 == old(len(w.cbc.log)) % 16
+//@   loop 1: decreases len(p)
+
+// ---- per-object keys (C10; ISO 32000-2, 7.6.3.2 Algorithm 1, steps a-c) ----
+// For revisions 2-4 the key is the first min(n+5,16) bytes of the MD5 digest of: the file
+// key, the low three bytes of the object number and the low two bytes of the generation
+// number (low-order byte first), and for AES the four bytes "sAlT".
+//@ func (*stdSecHandler).KeyForRef (sec, cf, ref) (key, err)
+//@   tags C10
+//@   requires cf != nil && sec.keyBytes >= 0
+//@   panics-if sec.key != nil && !(2 <= sec.R && sec.R <= 6)
+//@   assigns nothing
+//@   ensures sec.key == nil ==> err != nil
+//@   ensures err == nil && 5 <= sec.R ==> key == sec.key
+//@   ensures err == nil && sec.R <= 4 ==> len(key) == min(sec.keyBytes + 5, 16)
+//@   ensures err == nil && sec.R <= 4 ==> len(key.digestOf.log) == len(sec.key) + 5 + (cf.Cipher == cipherAES ? 4 : 0)
+//@   ensures err == nil && sec.R <= 4 ==> forall i in 0..len(sec.key) :: key.digestOf.log[i] == sec.key[i]
+//@   ensures err == nil && sec.R <= 4 ==> key.digestOf.log[len(sec.key)] == (ref % 4294967296) % 256 && key.digestOf.log[len(sec.key)+1] == ((ref % 4294967296) / 256) % 256 && key.digestOf.log[len(sec.key)+2] == ((ref % 4294967296) / 65536) % 256
+//@   ensures err == nil && sec.R <= 4 ==> key.digestOf.log[len(sec.key)+3] == (ref / 4294967296) % 256 && key.digestOf.log[len(sec.key)+4] == ((ref / 4294967296) / 256) % 256
+//@   ensures err == nil && sec.R <= 4 && cf.Cipher == cipherAES ==> key.digestOf.log[len(sec.key)+5] == 's' && key.digestOf.log[len(sec.key)+6] == 'A' && key.digestOf.log[len(sec.key)+7] == 'l' && key.digestOf.log[len(sec.key)+8] == 'T'
